@@ -218,6 +218,29 @@ PROPS = {
         assumptions=["directives are compared as a set split on ','; generated directives contain no comma"],
         floors=(200_000, 50_000, 5_000_000, 400_000),
     ),
+    "C16": simple(
+        rule="case = (1-14 cosmetic rules: 0-2 positive and 0-2 negated locations drawn from hostnames, subdomains, entities (x.*), bare public "
+             "suffixes, IDN hosts; ##, #@#, :style/:remove/:remove-attr/:remove-class actions, +js with arguments (function-style, template, "
+             "permissioned, missing resources), blanket #@#+js(); plus 0-2 @@...$generichide network rules and an unrelated blocking rule; "
+             "queried for 11 page hosts incl. multi-label public suffixes, deep subdomains and a punycode host). evaluation = "
+             "url_cosmetic_resources(page) vs the string-level model: hide_selectors, exceptions, procedural_actions (as canonical JSON), "
+             "injected-script invocation blocks and scriptlet definitions, generichide flag and absence of generic selectors under generichide. "
+             "non-trivial = >= 1 rule scoped to the page and >= 1 rule scoped elsewhere; distinct = hash of (list, page).",
+        assumptions=["the registrable domain of each page host is written down by hand in the harness (PAGES table)",
+                     "without the css-validation feature procedural operators are opaque selector text"],
+        floors=(500_000, 200_000, 8_000_000, 400_000),
+    ),
+    "C17": simple(
+        rule="case = (1-14 generic hide selectors: class/id selectors with plain, non-ASCII, escaped (backslash-char, hex escapes with terminating "
+             "space) identifiers, followed by nothing / compound / descendant / pseudo tails, plus selectors with no leading class or id; some "
+             "spelt as ~host## (hidden generic); plus site-specific rules that must not leak). evaluation = (partition) every generic selector "
+             "reachable through exactly one of {hidden_class_id_selectors with its own unescaped key, per-site resources of an unrelated host}; "
+             "(exactness) for 3 random class/id/exception subsets the result lies between 'must' and 'may' sets of the model; nothing "
+             "non-generic is ever returned. Selectors whose key contains characters outside letters/digits/_/- are only bound by the partition. "
+             "non-trivial = list has >= 1 keyed and >= 1 unkeyed selector; distinct = hash of the list.",
+        assumptions=["CSS unescaping in the model follows CSS Syntax Level 3 for the generated canonical escape forms"],
+        floors=(1_000_000, 50_000, 20_000_000, 300_000),
+    ),
 }
 
 # ---------------------------------------------------------------------------------------------
@@ -329,6 +352,20 @@ MANIFEST_TEXT = {
         "note": "Set comparison; order of directives in the output string is unspecified.",
         "technique": "runtime monitoring: differential against a reference set model + order-permutation metamorphic check",
         "design_ref": "DESIGN.md §4.15",
+    },
+    "C16": {
+        "text": "Runtime differential monitor: per-site cosmetic answers of the real engine are compared, for every page of a host universe, with a "
+                "string-level scoping model (label-aligned parent domains, entity forms, negations, exceptions, actions, scriptlets, generichide).",
+        "note": "Model written from the documented behaviour; PSL split of the page hosts is hand-written ground truth.",
+        "technique": "runtime monitoring: differential against a reference scoping model",
+        "design_ref": "DESIGN.md §4.16",
+    },
+    "C17": {
+        "text": "Runtime monitor: the generic class/id lookup is checked for exactness against a CSS-unescaping key model and for the partition "
+                "invariant (every generic selector reachable exactly one way) across generated selector sets.",
+        "note": "Exotic identifiers are held only to the partition clause so that no correct implementation is flagged.",
+        "technique": "runtime monitoring: reference key model + partition invariant over API observations",
+        "design_ref": "DESIGN.md §4.17",
     },
 }
 
